@@ -68,6 +68,8 @@ theorem step_sidCtr (cfg : Cfg) (wk : Nat) (ident : Identity) (c : Nat) (W : Wor
     · exact ⟨Nat.le_refl _, Nat.le_succ _, rfl⟩
   | use => exact ⟨Nat.le_refl _, Nat.le_succ _, rfl⟩
   | noop => exact ⟨Nat.le_refl _, Nat.le_succ _, rfl⟩
+  | reap at_ => exact ⟨Nat.le_refl _, Nat.le_succ _, rfl⟩
+  | shutdown => exact ⟨Nat.le_refl _, Nat.le_succ _, rfl⟩
 
 /-- frame invariant of a script run by client `c` from registry `R0` -/
 def FR (c : Nat) (R0 : Reg) (W : World) (rs : RS) : Prop :=
@@ -76,7 +78,7 @@ def FR (c : Nat) (R0 : Reg) (W : World) (rs : RS) : Prop :=
   (∀ sid l, rs.sc = some (sid, l) → ∀ x ∈ W.reg.entries, x.sid = sid → x.owner = c)
 
 theorem step_inv (cfg : Cfg) (wk : Nat) (ident : Identity) (c : Nat) (R0 : Reg) (W : World) (rs : RS) (a : Action)
-    (hb : W.env.sidCtr < 256 ^ 12) (hr : RegInv W) (hf : FR c R0 W rs) :
+    (hb : W.env.sidCtr < 256 ^ 12) (hapi : a.isApi = true) (hr : RegInv W) (hf : FR c R0 W rs) :
     RegInv (stepAction cfg wk ident c W rs a).1 ∧ FR c R0 (stepAction cfg wk ident c W rs a).1 (stepAction cfg wk ident c W rs a).2.1 := by
   obtain ⟨hnd, hfr, hne⟩ := hr
   obtain ⟨f1, f2, f3⟩ := hf
@@ -146,17 +148,21 @@ theorem step_inv (cfg : Cfg) (wk : Nat) (ident : Identity) (c : Nat) (R0 : Reg) 
         cases hs
   | use => exact ⟨⟨hnd, hfr, hne⟩, f1, f2, f3⟩
   | noop => exact ⟨⟨hnd, hfr, hne⟩, f1, f2, f3⟩
+  | reap at_ => cases hapi
+  | shutdown => cases hapi
 
 theorem run_inv (cfg : Cfg) (wk : Nat) (ident : Identity) (c : Nat) (R0 : Reg) (swallow : Bool) (script : List Action) :
+    (∀ a ∈ script, a.isApi = true) →
     ∀ (W : World) (rs : RS), W.env.sidCtr + script.length ≤ 256 ^ 12 → RegInv W → FR c R0 W rs →
       RegInv (runScript cfg wk ident c swallow W rs script).1 ∧
       FR c R0 (runScript cfg wk ident c swallow W rs script).1 (runScript cfg wk ident c swallow W rs script).2.1 := by
   induction script with
-  | nil => intro W rs _ hr hf; exact ⟨hr, hf⟩
+  | nil => intro _ W rs _ hr hf; exact ⟨hr, hf⟩
   | cons a as ih =>
-    intro W rs hb hr hf
+    intro hapi W rs hb hr hf
+    have ih := ih (fun b hb' => hapi b (by simp [hb']))
     simp only [List.length_cons] at hb
-    have h1 := step_inv cfg wk ident c R0 W rs a (by omega) hr hf
+    have h1 := step_inv cfg wk ident c R0 W rs a (by omega) (hapi a (by simp)) hr hf
     have hc := step_sidCtr cfg wk ident c W rs a
     have h2 := ih (stepAction cfg wk ident c W rs a).1 (stepAction cfg wk ident c W rs a).2.1 (by omega) h1.1 h1.2
     simp only [runScript]
@@ -172,5 +178,6 @@ theorem run_inv (cfg : Cfg) (wk : Nat) (ident : Identity) (c : Nat) (R0 : Reg) (
     | closed _ => simpa using h2
     | used _ => simpa using h2
     | noop => simpa using h2
+    | env => simpa using h2
 
 end VgiVerif.Sticky
